@@ -345,6 +345,30 @@ def contract_ob(oid, function, props, case_fn, clause, kind='post', deciding=Tru
 
 
 def random_refute(case, facts, lhs, rhs, tries=1500, seed=0, maxdim=3):
+    """Two passes of `_random_refute_pass`: the historical candidate set first (unchanged random sequence), then,
+    only if that found nothing, scalars placed just beyond the integer thresholds that the rational constants of
+    the two terms define ((j + c/4)/m and (j - c/4)/m for every constant 0 < c < 1 and m <= maxdim+1): a rounding
+    or tolerance constant in the code is exercised at the inputs it distinguishes."""
+    w = _random_refute_pass(case, facts, lhs, rhs, tries, seed, maxdim, ())
+    if w is not None:
+        return w
+    from fractions import Fraction as Fr
+    consts = set()
+    for t_ in (lhs, rhs):
+        for u in tm.subterms(t_):
+            if u.op == 'const' and u.sort == 'R' and 0 < u.args[0] < 1:
+                consts.add(Fr(u.args[0]))
+    extra = []
+    for c in sorted(consts)[:6]:
+        for m in range(1, maxdim + 2):
+            for j in range(0, m + 1):
+                extra += [(j + c / 4) / m, (j - c / 4) / m]
+    if not extra:
+        return None
+    return _random_refute_pass(case, facts, lhs, rhs, 2 * tries, seed + 7919, maxdim, tuple(extra))
+
+
+def _random_refute_pass(case, facts, lhs, rhs, tries, seed, maxdim, extra_vals):
     """Concrete search for an instance on which the code term and the spec term differ while all
     facts hold.  Returns a witness dict (dims, arrays, scalars) or None."""
     import random
@@ -358,7 +382,7 @@ def random_refute(case, facts, lhs, rhs, tries=1500, seed=0, maxdim=3):
         for u in tm.subterms(t_):
             if u.op == 'sel':
                 arrays[u.args[0]] = (len(u.args) - 1, u.sort)
-    vals_r = [Fr(0), Fr(1), Fr(-1), Fr(1, 2), Fr(-3, 2), Fr(2), Fr(3), Fr(-2), Fr(5, 4), Fr(7, 10)]
+    vals_r = [Fr(0), Fr(1), Fr(-1), Fr(1, 2), Fr(-3, 2), Fr(2), Fr(3), Fr(-2), Fr(5, 4), Fr(7, 10)] + list(extra_vals)
     for _ in range(tries):
         env = {}
         for v_ in sorted(fvs, key=lambda u_: u_.args[0]):       # deterministic order (set iteration depends on the hash seed)
